@@ -5,7 +5,7 @@
    the pawn / king / castling blocks, is_capture = the rules' capture relation and the attack queries = the rules'
    attack relation are decided by the correspondence run against spec/Rules.v. *)
 From Coq Require Import NArith ZArith List Bool.
-From Rawr Require Import Consts Bits Magic Position MoveGen MakeMove MakeStages Rules Abs NotationFacts KeyAbs AttackFacts AttackAbs.
+From Rawr Require Import Consts Bits Magic Position MoveGen MakeMove MakeStages Rules Abs NotationFacts KeyAbs AttackFacts AttackAbs CountFacts.
 Import ListNotations.
 Local Open Scope N_scope.
 
@@ -24,6 +24,12 @@ Theorem C08_legal_captures_is_filter : forall p,
       is_set (c_them p) to || ((piece =? PAWN) && match ep p with Some e => to =? e | None => false end)) (move_generator p)).
 Proof. exact legal_captures_is_filter. Qed.
 
+(* the bulk counter counts exactly the moves the generator emits, on every position *)
+Theorem C08_count_moves_is_number_of_legal_moves : forall p, count_moves p = N.of_nat (length (legal_moves p)).
+Proof. exact count_moves_is_number_of_legal_moves. Qed.
+Theorem C08_perft_one_is_number_of_legal_moves : forall p, perft 1 p = N.of_nat (length (legal_moves p)).
+Proof. intros p. rewrite perft_one. apply count_moves_is_number_of_legal_moves. Qed.
+
 (* is_sq_attacked = Rules.attacked on the abstract board (spec_attacked maps the relative square and the side to the
    absolute square and colour) *)
 Theorem C08_attack_query_is_the_rules : forall p sq us,
@@ -41,6 +47,8 @@ Proof. split; vm_compute; reflexivity. Qed.
 Print Assumptions C08_popcount_length_bits.
 Print Assumptions C08_attack_query_is_the_rules.
 Print Assumptions C08_attack_query_premises.
+Print Assumptions C08_count_moves_is_number_of_legal_moves.
+Print Assumptions C08_perft_one_is_number_of_legal_moves.
 Print Assumptions C08_count_sliders_eq.
 Print Assumptions C08_perft_unfold.
 Print Assumptions C08_perft_one.
